@@ -14,6 +14,7 @@ type State struct {
 	base   string
 	ver    map[string]string
 	hw     string // allocation high-water mark (Int term)
+	pendingBaseHW bool
 	defers []*deferRec
 }
 
@@ -97,6 +98,11 @@ func (vc *VC) cur(st *State, key string) string {
 	}
 	name := key + "@" + st.base
 	vc.declConst(name, k.Sort)
+	if _, ok := vc.verHW[sym(name)]; !ok {
+		if b, ok := vc.baseHW[st.base]; ok {
+			vc.verHW[sym(name)] = b
+		}
+	}
 	return sym(name)
 }
 
@@ -109,6 +115,9 @@ func (vc *VC) bump(st *State, key string) string {
 	name := vc.fresh(key)
 	vc.declConst(name, k.Sort)
 	st.ver[key] = sym(name)
+	if st.hw != "" {
+		vc.verHW[sym(name)] = st.hw
+	}
 	return sym(name)
 }
 
@@ -162,6 +171,7 @@ func (vc *VC) mergeStates(ins []edgeIn, label string) *State {
 		for k := range vc.kinds {
 			keys[k] = true
 		}
+		out.pendingBaseHW = true
 	}
 	for _, k := range sortedKeys(keys) {
 		v0 := vc.cur(ins[0].st, k)
@@ -196,6 +206,9 @@ func (vc *VC) mergeStates(ins []edgeIn, label string) *State {
 			vc.fact(implies(e.cond, eq(h.S, e.st.hw)))
 		}
 		out.hw = h.S
+	}
+	if out.pendingBaseHW {
+		vc.baseHW[out.base] = out.hw
 	}
 	// defers: union by site, flag merged
 	sites := map[int]*deferRec{}
@@ -270,4 +283,5 @@ func (vc *VC) havocAll(st *State, keepGhost bool) {
 	h := vc.freshConst("hw", SInt)
 	vc.fact(fmt.Sprintf("(>= %s %s)", h.S, st.hw))
 	st.hw = h.S
+	vc.baseHW[st.base] = h.S
 }
